@@ -157,7 +157,12 @@ def prove(run):
                             x.push_cano_to_child(node.parent, node.parent.children.index(node))
                             x.push_cano_to_parent(node)
                     return x
+                def lossless_list(x):
+                    x.canonicalise()
+                    x.compress(temp_m_trunc=[int(d) for d in x.bond_dims])      # entry i limits the bond above node i: nothing to cut
+                    return x
                 kops = [("canonicalise", "TTNS.canonicalise", lambda x: (x.canonicalise(), x)[1]), ("lossless_compress", "TTNS.compress", lossless),
+                        ("compress_with_per_bond_list_of_current_dims", "TTNS.compress", lossless_list),
                         ("push_centre_to_leaf_and_back", "TTNS.push_cano_to_child", push_round_trip),
                         ("sum_then_canonicalise", "TTNS.canonicalise", None)]
                 with SH.kernel_stub_mode_tree():
